@@ -438,7 +438,7 @@ func (e *Exec) lock(recvExpr ast.Expr, c *Ctx, call *ast.CallExpr) {
 	}
 	mkey := owner.T.Name + "." + mu + "@" + owner.S
 	if e.mode == "conc" {
-		if rel, ok := e.relSnap[mkey]; ok {
+		if rel, ok := st.rel[mkey]; ok {
 			e.monitorRely(m, owner, st, rel, c.fr, false, "")
 		}
 		// the contents of a protected map are protected state too: arbitrary after the acquire
@@ -462,8 +462,12 @@ func (e *Exec) lock(recvExpr ast.Expr, c *Ctx, call *ast.CallExpr) {
 		}
 	}
 	e.monitorInv(m, owner, st, c.fr, false, "")
-	e.lockSnap = st.clone()
-	e.acqSnap[mkey] = e.lockSnap
+	snap := st.clone()
+	st.lockSnap = snap
+	if st.acq == nil {
+		st.acq = map[string]*State{}
+	}
+	st.acq[mkey] = snap
 }
 
 // monitorRely: the two-state guarantee of every critical section (asserted at release against the state at
@@ -499,10 +503,13 @@ func (e *Exec) unlock(recvExpr ast.Expr, c *Ctx, call *ast.CallExpr) {
 		e.safetyAssert(c, "unlock-held", fmt.Sprintf("(select %s %s)", h.S, owner.S), exprText(recvExpr), call)
 		e.monitorInv(m, owner, st, c.fr, true, e.prog.pos(call))
 		mkey := owner.T.Name + "." + mu + "@" + owner.S
-		if acq, ok := e.acqSnap[mkey]; ok && len(m.Rely) > 0 {
+		if acq, ok := st.acq[mkey]; ok && len(m.Rely) > 0 {
 			e.monitorRely(m, owner, st, acq, c.fr, true, e.prog.pos(call))
 		}
-		e.relSnap[mkey] = st.clone()
+		if st.rel == nil {
+			st.rel = map[string]*State{}
+		}
+		st.rel[mkey] = st.clone()
 	}
 	e.set(st, "$held!"+owner.T.Name+"."+mu, Term{fmt.Sprintf("(store %s %s false)", h.S, owner.S), h.T})
 	hw := e.heldArr(st, owner.T.Name, mu+"!w")
